@@ -4,6 +4,7 @@ package c14
 import (
 	"encoding/json"
 	"fmt"
+	"reflect"
 	"slices"
 	"testing"
 
@@ -334,6 +335,21 @@ func runIdx[S enumIdx[S]](c Case, recv S, fresh func() S, it func(S) []pair) (pb
 	if err := unchanged("mutating the derived containers"); err != nil {
 		return info, err
 	}
+	// the derived containers are sound containers of their kind: everything that can be
+	// asked of them from either end answers as on a container built by plain insertions
+	selRef := fresh()
+	for _, x := range selStream {
+		selRef.Add(x)
+	}
+	if err := soundAs(c.Kind+": the Select result", sel, selRef); err != nil {
+		return info, err
+	}
+	if err := soundAs(c.Kind+": the Map result", mapped, ref); err != nil {
+		return info, err
+	}
+	if err := unchanged("using the derived containers"); err != nil {
+		return info, err
+	}
 	if len(c.Again) > 0 {
 		recv.Add(c.Again...)
 		c2 := c
@@ -354,6 +370,96 @@ func runIdx[S enumIdx[S]](c Case, recv S, fresh func() S, it func(S) []pair) (pb
 	info.NonTrivial = len(seq) >= 3 && matches > 0 && matches < len(seq)
 	classify(&info, c, len(seq), matches)
 	return info, nil
+}
+
+// backward walks a container's iterator from End() with Prev(), when it can.
+func backward(c any) ([]int, bool) {
+	m := reflect.ValueOf(c).MethodByName("Iterator")
+	if !m.IsValid() {
+		return nil, false
+	}
+	it := m.Call(nil)[0]
+	if it.Kind() != reflect.Ptr {
+		p := reflect.New(it.Type())
+		p.Elem().Set(it)
+		it = p
+	}
+	end, prev, val := it.MethodByName("End"), it.MethodByName("Prev"), it.MethodByName("Value")
+	if !end.IsValid() || !prev.IsValid() || !val.IsValid() {
+		return nil, false
+	}
+	end.Call(nil)
+	var out []int
+	for prev.Call(nil)[0].Bool() {
+		out = append(out, int(val.Call(nil)[0].Int()))
+	}
+	return out, true
+}
+
+type listLike interface {
+	Get(int) (int, bool)
+	Remove(int)
+	Insert(int, ...int)
+	Set(int, int)
+	Values() []int
+	Size() int
+	Add(...int)
+}
+
+// soundAs compares a derived container with a reference container of the same kind
+// that holds the same elements through plain insertions: backward iteration, and for
+// the lists Get at every index and mutations reached from the tail side.  Both
+// containers are modified alike.
+func soundAs(what string, got, ref any) error {
+	values := func(x any) []int { return x.(interface{ Values() []int }).Values() }
+	if b, ok := backward(got); ok {
+		want := slices.Clone(values(got))
+		slices.Reverse(want)
+		if !eqInts(b, want) {
+			return fmt.Errorf("%s, walked backwards, yields %v; its Values() reversed are %v", what, b, want)
+		}
+	}
+	g, ok1 := got.(listLike)
+	r, ok2 := ref.(listLike)
+	if !ok1 || !ok2 {
+		return nil
+	}
+	same := func(when string) error {
+		if !eqInts(g.Values(), r.Values()) || g.Size() != r.Size() {
+			return fmt.Errorf("%s %s holds %v, a list built by Add holds %v", what, when, g.Values(), r.Values())
+		}
+		for i := -1; i <= r.Size(); i++ {
+			gv, gok := g.Get(i)
+			rv, rok := r.Get(i)
+			if gv != rv || gok != rok {
+				return fmt.Errorf("%s %s: Get(%d) = (%d,%v), a list built by Add gives (%d,%v)", what, when, i, gv, gok, rv, rok)
+			}
+		}
+		return nil
+	}
+	if err := same("as returned"); err != nil {
+		return err
+	}
+	if n := r.Size(); n >= 2 {
+		g.Remove(n - 2)
+		r.Remove(n - 2)
+		if err := same("after Remove(size-2)"); err != nil {
+			return err
+		}
+	}
+	n := r.Size()
+	g.Set(n-1, 9901)
+	r.Set(n-1, 9901)
+	g.Insert(max(n-1, 0), 9902, 9903)
+	r.Insert(max(n-1, 0), 9902, 9903)
+	if err := same("after Set(size-1) and Insert(size-1, two values)"); err != nil {
+		return err
+	}
+	g.Remove(g.Size() - 1)
+	r.Remove(r.Size() - 1)
+	g.Add(9904)
+	r.Add(9904)
+	return same("after Remove(size-1) and Add")
 }
 
 func classify(info *pbt.Info, c Case, n, matches int) {
